@@ -13,8 +13,12 @@ props.META["C17"] = dict(
     text=("TLC checks the coordinator design exhaustively (each point in exactly one shard, failed = requested minus processed, 'not found' "
           "only if every shard answered, with a negative variant) and validates traces of real deployments: placement learned from the shards "
           "themselves must partition the live ids; update / delete failed lists, _id reads, filter / flat / sorted searches through random entry "
-          "nodes are checked against the model, also after a shard server was killed."),
-    note="trusted: loopback RPC; deployments are sampled (1-3 servers, per-shard maxima 2-6); the per-shard limit heuristic is deliberately outside the oracle")
+          "nodes are checked against the model, also after a shard server was killed. The rpc layer under the fan-out has its own "
+          "specifications: the retry loop (Rpc.tla; NilMeansExecuted also as an inductive invariant discharged by Apalache with the "
+          "number of retries left open) and one connection carrying several calls (RpcMux.tla), bound by a soak phase with a client "
+          "whose requests the remote handler refuses and by a fresh-connection probe."),
+    note=("trusted: loopback RPC; deployments are sampled (1-3 servers, per-shard maxima 2-6); the per-shard limit heuristic is deliberately "
+          "outside the oracle; rpc timeouts (slow servers) are modelled (Rpc.tla, RpcMux.tla) but not driven on the code"))
 
 
 def apalache_inductive(res):
